@@ -570,3 +570,26 @@ Lemma match_error_lattice :
   exc_isa "MatchError" "GlomError" = true /\ exc_isa "TypeMatchError" "MatchError" = true /\
   exc_isa "TypeMatchError" "TypeError" = true /\ exc_isa "CheckError" "GlomError" = true.
 Proof. vm_compute. auto. Qed.
+
+(* comparisons of sets are inclusion tests: a PARTIAL order, where >= is not the negation of < *)
+Lemma m_ge_sets_lemma : forall i f a j g b, m_compare "g" (VSet i f a) (VSet j g b) = Ok (set_subset b a).
+Proof. reflexivity. Qed.
+Lemma m_le_sets_lemma : forall i f a j g b, m_compare "l" (VSet i f a) (VSet j g b) = Ok (set_subset a b).
+Proof. reflexivity. Qed.
+Lemma m_lt_sets_lemma : forall i f a j g b, m_compare "<" (VSet i f a) (VSet j g b) = Ok (set_subset a b && negb (set_subset b a)).
+Proof. reflexivity. Qed.
+(* on the totally ordered operands (numbers with numbers, strings with strings) >= IS the negation of < *)
+Lemma m_ge_total_lemma : forall a b x, m_compare "<" a b = Ok x ->
+  (match a, b with VSet _ _ _, VSet _ _ _ => False | _, _ => True end) -> m_compare "g" a b = Ok (negb x).
+Proof.
+  intros a b x H Hn. cbn in H |- *. unfold py_lt in H. unfold py_le.
+  destruct (as_num a) as [p|] eqn:Ea; destruct (as_num b) as [q|] eqn:Eb.
+  - injection H as <-. f_equal. rewrite Z.leb_antisym. reflexivity.
+  - destruct a, b; try discriminate; cbn in *; try contradiction;
+      repeat match goal with H : (if ?c then _ else _) = Ok _ |- _ => destruct c; try discriminate end.
+  - destruct a, b; try discriminate; cbn in *; try contradiction;
+      repeat match goal with H : (if ?c then _ else _) = Ok _ |- _ => destruct c; try discriminate end.
+  - destruct a, b; try discriminate; cbn in *; try contradiction;
+      repeat match goal with H : (if ?c then _ else _) = Ok _ |- _ => destruct c; try discriminate end.
+    injection H as <-. f_equal. rewrite String.compare_antisym. destruct (String.compare _ _); reflexivity.
+Qed.
